@@ -832,8 +832,8 @@ func genFuncs(t *rapid.T) FuncsCase {
 // flat form itself does not load (a body with a compile-time error): nothing
 // to compare further.
 func loadBoth(c FuncsCase) (fancy, flat map[string]expressions.KeyBuilderFunction, ok bool, err error) {
-	flat, flatErr := funcfile.LoadDefinitions(funclib.NewKeyBuilder(), strings.NewReader(string(c.Flat)), "flat.funcs")
-	fancy, fancyErr := funcfile.LoadDefinitions(funclib.NewKeyBuilder(), strings.NewReader(string(c.File)), "layout.funcs")
+	flat, flatErr := funcfile.LoadDefinitions(funclib.NewKeyBuilder(), strings.NewReader(withTable(c.Flat)), "flat.funcs")
+	fancy, fancyErr := funcfile.LoadDefinitions(funclib.NewKeyBuilder(), strings.NewReader(withTable(c.File)), "layout.funcs")
 	names := func(m map[string]expressions.KeyBuilderFunction) string {
 		return strings.Join(pbt.SortedKeys(m), " ")
 	}
@@ -980,7 +980,7 @@ func checkCli(c FuncsCase, want string) error {
 		return nil
 	}
 	defer os.Remove(f.Name())
-	f.WriteString(string(c.File))
+	f.WriteString(withTable(c.File))
 	f.Close()
 	for _, noOpt := range []bool{false, true} {
 		var args []string
